@@ -1,6 +1,7 @@
 (* Extraction of the notification queue models (C10). ExtrOcamlBasic only. *)
 From Coq Require Import Extraction ExtrOcamlBasic ZArith NArith.
-From T38 Require Import Model.Queues.
+From T38 Require Import Model.Queues Model.HookRetention.
 Extraction Language OCaml.
 Extraction "model.ml" Z.add Z.of_N Nat.add hq_init qstep qrun pending taken_list enq_msgs send_all
-  ps_init pstep prun ps_view expected lstep lrun lv_view writes_on mkLV.
+  ps_init pstep prun ps_view expected lstep lrun lv_view writes_on mkLV
+  hook_ttl rq_init rstep rrun fresh_ttls.
